@@ -164,6 +164,7 @@ fn winsorize_case(ctx: &mut Ctx, rng: &mut Rng, x: &Series) {
             None => {
                 ctx.count(&format!("winsorize_ok.{mname}"));
                 if !untouched_all {
+                    ctx.sample(|| format!("{} -> {} (bounds recomputed from scratch: {bounds:?})", d(), fmt_f64s(&out)));
                     ctx.count(&format!("winsorize_clipped.{mname}"));
                     ctx.distinct(&format!("w|{mname}|{p}|{}|{n}", x.len().min(30)));
                 }
@@ -333,6 +334,7 @@ fn half_life_case(ctx: &mut Ctx, rng: &mut Rng, x: &Series, label: &str) {
                             ctx.violation("half_life/value", || format!("result {h}, expected {want} (autocorrelation above 0.5 exactly up to lag {}); {}", want - 1, d()));
                         } else {
                             ctx.count("half_life_value_ok");
+                            ctx.sample(|| format!("{} = {h} = first lag with autocorrelation below 0.5 ({} passes over the data, budget {budget})", d(), passes));
                             ctx.distinct(&format!("hl|{label}|{}|{want}", len.min(64)));
                         }
                     } else {
